@@ -96,7 +96,8 @@ impl Node {
                 n += 1;
                 p = true;
             }
-            while self.chain.step_preload() {
+            // the verify queue holds 128 blocks: never let the preload stage fill it up
+            while self.chain.verify_pending() < 100 && self.chain.step_preload() {
                 n += 1;
                 p = true;
             }
